@@ -547,6 +547,7 @@ C01.defined: wherever constraints_and_type_name renders a component with the `<P
     defined(m, ctx, "C01.defined");
     inner_names(m, ctx, "C01.inner");
     empty_set(m, ctx, "C01.emptyset", &derive);
+    unsupported_kinds(m, ctx, "C01.unsupported");
     // names that are referred to are the names that are generated (shared with C02.defname)
     crate::rules::c02::defname(m, ctx, "C01.defname");
     // the type of a component and the type of its DEFAULT function / value are chosen by two selectors (shared with C06.agree)
@@ -649,6 +650,77 @@ pub fn empty_set(m: &Model, ctx: &mut Ctx, rule: &str, derive: &std::path::Path)
             }
             Ok(o) => ctx.fail_closed(rule, &format!("[{}]: result {}", key, o.show().chars().take(120).collect::<String>())),
             Err(e) => ctx.fail_closed(rule, &format!("[{}]: {}", key, e)),
+        }
+    }
+}
+
+/// Sibling agreement: a kind of type that generate_type refuses as an assignment (`R ::= REAL` -> "unsupported", a warning)
+/// must be refused as the type of a component too — `S ::= SEQUENCE { r REAL }` otherwise compiles without a warning to a
+/// field of a Rust type the container's derives (`Eq`, `Hash`) do not accept, or to a name nothing defines.
+pub fn unsupported_kinds(m: &Model, ctx: &mut Ctx, rule: &str) {
+    let Ok(types) = m.find_enum("ASN1Type") else {
+        ctx.fail_closed(rule, "enum ASN1Type not found");
+        return;
+    };
+    let Some(gt) = anchor_fn(m, ctx, rule, Some("Rasn"), "generate_type", None) else { return };
+    let consts = const_resolver(m);
+    let hook = |_: &Evaluator, name: &str, _a: &[Val]| -> Option<Result<Val, String>> {
+        if name.starts_with(".generate_") {
+            return Some(Ok(Val::Ctor("Ok".into(), vec![Val::Sym(format!("<{}>", &name[1..]))], BTreeMap::new())));
+        }
+        None
+    };
+    let ev = Evaluator { consts: &consts, call_hook: &hook, inline: None };
+    let value_of = |v: &str| -> Val {
+        let fields = types.variant_fields.get(v).cloned().unwrap_or_default();
+        Val::Ctor(v.to_string(), fields.iter().map(|_| Val::Opaque("payload".into())).collect(), Default::default())
+    };
+    let param = |f: &FnInfo, i: usize| f.sig.inputs.iter().filter_map(|a| match a { syn::FnArg::Typed(t) => Some(tok(&t.pat)), _ => None }).nth(i).unwrap_or_default();
+    let mut refused = vec![];
+    for v in &types.variants {
+        let mut t = BTreeMap::new();
+        t.insert("name".to_string(), Val::Str("T".into()));
+        t.insert("parameterization".to_string(), Val::none());
+        t.insert("ty".to_string(), value_of(v));
+        let mut env = Env::new();
+        env.insert("self".into(), Val::ctor("Rasn"));
+        env.insert(param(gt, 0), Val::Ctor("ToplevelTypeDefinition".into(), vec![], t));
+        match ev.eval_fn_body(&gt.block, &mut env) {
+            Ok(Val::Ctor(e, _, _)) if e == "Err" => refused.push(v.clone()),
+            Ok(_) => {}
+            Err(e) => {
+                ctx.fail_closed(rule, &format!("generate_type on {}: {}", v, e));
+                return;
+            }
+        }
+    }
+    ctx.floor(&format!("{}/refused-kinds", rule), refused.len(), 2);
+    for (fname, nparams) in [("type_to_tokens", 1usize), ("constraints_and_type_name", 4)] {
+        let Some(f) = anchor_fn(m, ctx, rule, Some("Rasn"), fname, None) else { continue };
+        for v in &refused {
+            // a selection type is resolved by the linker before any generator runs
+            if v == "ChoiceSelectionType" {
+                continue;
+            }
+            ctx.oblige(rule, &format!("{}:{}", fname, v), true);
+            let mut env = Env::new();
+            env.insert("self".into(), Val::ctor("Rasn"));
+            env.insert(param(f, 0), value_of(v));
+            if nparams == 4 {
+                env.insert(param(f, 1), Val::Str("r".into()));
+                env.insert(param(f, 2), Val::Str("S".into()));
+                env.insert(param(f, 3), Val::Bool(false));
+            }
+            match ev.eval_fn_body(&f.block, &mut env) {
+                Ok(Val::Ctor(e, _, _)) if e == "Err" => {}
+                Ok(Val::Ctor(o, p, _)) if o == "Ok" => {
+                    let shown = match p.first() { Some(Val::Sym(s)) => s.clone(), Some(Val::Tuple(t)) => t.last().map(|v| v.show()).unwrap_or_default(), Some(o) => o.show(), None => String::new() };
+                    ctx.violate(rule, &format!("component-accepted:{}:{}", fname, v), &f.file, f.line,
+                        &format!("a type assignment of kind {k} is refused by generate_type (a warning: unsupported), but {f} renders a component of kind {k} as `{s}`: `S ::= SEQUENCE {{ r {K} }}` compiles without a warning to bindings that do not type-check (for REAL: an `f64` field under `#[derive(Eq, Hash)]`)", k = v, f = fname, s = shown, K = v.to_uppercase()));
+                }
+                Ok(o) => ctx.fail_closed(rule, &format!("{} on {}: result {}", fname, v, o.show().chars().take(100).collect::<String>())),
+                Err(e) => ctx.fail_closed(rule, &format!("{} on {}: {}", fname, v, e)),
+            }
         }
     }
 }
